@@ -1,6 +1,8 @@
 package main
 
 import (
+	"os"
+
 	"verifharness/lib"
 )
 
@@ -11,9 +13,14 @@ func genCookie(r *lib.Rng) []byte {
 	case 1:
 		return r.Bytes(1 + r.Intn(4))
 	case 2:
-		return r.Bytes(5000 + r.Intn(3000)) // larger than bufio's buffer
+		if r.Intn(3) == 0 {
+			return r.Bytes(5000 + r.Intn(3000)) // larger than bufio's buffer, and than an NTS packet
+		}
+		return r.Bytes(lib.Pick(r, 895, 896, 897, 928, 929, 1024)) // around ntske.MaxCookieLen
 	case 3:
 		return r.Bytes(r.Intn(300))
+	case 4:
+		return r.Bytes(600 + r.Intn(297)) // long but usable: eight of them span several reads
 	default:
 		return r.Bytes(100 + 4*r.Intn(8)) // the size of real cookies
 	}
@@ -205,7 +212,7 @@ func scanGo(sc *script) (string, int, bool) {
 		}
 	}
 	left := sc.cut
-	cookies, algo := 0, -1
+	cookies, algo, fits := 0, -1, true
 	for _, x := range sc.recs {
 		n := 4 + len(x.body)
 		if n > left {
@@ -214,7 +221,7 @@ func scanGo(sc *script) (string, int, bool) {
 		left -= n
 		switch {
 		case x.typ == 0:
-			if algo == 15 && cookies > 0 {
+			if algo == 15 && cookies > 0 && fits {
 				return "acc", cookies, strict
 			}
 			return "ref", cookies, strict
@@ -224,6 +231,9 @@ func scanGo(sc *script) (string, int, bool) {
 			algo = int(x.body[0])<<8 | int(x.body[1])
 		case x.typ == 5:
 			cookies++
+			if len(x.body) > 896 {
+				fits = false
+			}
 		case x.typ == 1, x.typ == 4, x.typ == 6, x.typ == 7:
 		default:
 			if x.crit {
@@ -565,6 +575,9 @@ func genAll(r *lib.Rng, n int, thorough bool) {
 		nt, no = 400, 100
 	}
 	genTargets(r, nt)
+	if os.Getenv("C20_QUIC") == "1" {
+		genQUIC(r)
+	}
 	for i := 0; i < no; i++ {
 		runOwn(r)
 	}
